@@ -19,11 +19,14 @@ import (
 	"time"
 
 	"github.com/notaryproject/notation-go"
+	"github.com/notaryproject/notation-go/registry"
 	"github.com/notaryproject/notation-go/verifharness/lib"
 	"github.com/notaryproject/notation-go/verifier"
 	"github.com/notaryproject/notation-go/verifier/trustpolicy"
 	"github.com/opencontainers/go-digest"
 	ocispec "github.com/opencontainers/image-spec/specs-go/v1"
+	"oras.land/oras-go/v2"
+	"oras.land/oras-go/v2/registry/remote"
 )
 
 type call struct {
@@ -561,10 +564,119 @@ func main() {
 		}
 	}, r.PanicViolation("notation.Verify"))
 
+	remotePaging(r)
 	r.Exhaustive = true
 	r.RequireAtLeast("success-scripted", 1000)
 	r.RequireAtLeast("error-scripted", 1000)
 	r.RequireAtLeast("success-real", 50)
 	r.RequireAtLeast("error-real", 50)
 	r.Finish()
+}
+
+// pver: a verifier that accepts envelopes starting with 'v' and records which signature (second byte) it was shown.
+type pver struct {
+	mu   sync.Mutex
+	seen []int
+}
+
+func (v *pver) Verify(ctx context.Context, desc ocispec.Descriptor, sig []byte, opts notation.VerifierVerifyOptions) (*notation.VerificationOutcome, error) {
+	v.mu.Lock()
+	v.seen = append(v.seen, int(sig[1]))
+	v.mu.Unlock()
+	out := &notation.VerificationOutcome{RawSignature: sig, VerificationLevel: trustpolicy.LevelStrict}
+	if sig[0] == 'v' {
+		return out, nil
+	}
+	out.Error = errors.New("scripted invalid signature")
+	return out, out.Error
+}
+
+// remotePaging: the same statement through the library's own registry client against a registry that pages its referrers
+// listing (1-3 per page). Every page AFTER the one that holds the first good signature answers 500: the good signature is
+// among the first N the repository lists and everything before it could be fetched, so verification succeeds - with
+// exactly that signature's outcome, nothing after it evaluated. Without a good signature among the first N: an error.
+func remotePaging(r *lib.Run) {
+	ctx := context.Background()
+	type sc struct {
+		listing string
+		page, n int
+	}
+	var scs []sc
+	var gen func(prefix string, n int)
+	gen = func(prefix string, n int) {
+		if len(prefix) > 0 {
+			for _, page := range []int{1, 2, 3} {
+				for _, lim := range []int{1, 2, 3, 6} {
+					scs = append(scs, sc{prefix, page, lim})
+				}
+			}
+		}
+		if len(prefix) < n {
+			gen(prefix+"v", n)
+			gen(prefix+"i", n)
+		}
+	}
+	gen("", 4)
+	if r.Quick() {
+		var few []sc
+		for i, s := range scs {
+			if i%3 == 0 || strings.HasSuffix(s.listing, "iv") {
+				few = append(few, s)
+			}
+		}
+		scs = few
+	}
+	lib.Parallel(len(scs), 8, func(i int) {
+		s := scs[i]
+		g := strings.IndexByte(s.listing, 'v')
+		wantOK := g >= 0 && g < s.n
+		reg := lib.NewFakeRegistry(s.page)
+		defer reg.Close()
+		rr, err := remote.NewRepository(reg.Host() + "/test")
+		if err != nil {
+			panic(err)
+		}
+		rr.PlainHTTP = true
+		rr.Client = reg.Client()
+		repo := registry.NewRepository(rr)
+		artifact, err := oras.PushBytes(ctx, rr, ocispec.MediaTypeImageManifest, []byte(fmt.Sprintf(`{"schemaVersion":2,"mediaType":%q,"config":{"mediaType":"application/vnd.oci.empty.v1+json","digest":"sha256:44136fa355b3678a1146ad16f7e8649e94fb4fc21fe77e8310c060f61caaff8a","size":2},"layers":[],"annotations":{"c10":"%d"}}`, ocispec.MediaTypeImageManifest, i)))
+		if err != nil {
+			r.Inconclusive("remote paging: cannot push the artifact: " + err.Error())
+			return
+		}
+		for k := 0; k < len(s.listing); k++ {
+			if _, _, err := repo.PushSignature(ctx, lib.Formats[k%2], []byte{s.listing[k], byte(k), 'x', byte(i), byte(i >> 8)}, artifact, map[string]string{"n": fmt.Sprint(k)}); err != nil {
+				r.Inconclusive("remote paging: cannot push a signature: " + err.Error())
+				return
+			}
+		}
+		if wantOK {
+			reg.FailReferrersFromPage = g/s.page + 2
+		}
+		before := reg.Count("GET", "/referrers/")
+		v := &pver{}
+		_, outs, verr := notation.Verify(ctx, v, repo, notation.VerifyOptions{ArtifactReference: reg.Host() + "/test@" + artifact.Digest.String(), MaxSignatureAttempts: s.n})
+		pages := reg.Count("GET", "/referrers/") - before
+		r.Eval(fmt.Sprintf("remote-paging|%s|%d|%d", s.listing, s.page, s.n))
+		r.Event("verifications-over-a-paged-registry")
+		wit := map[string]any{"listing": s.listing, "referrers_per_page": s.page, "limit": s.n, "first_good": g, "later_pages_fail_from": reg.FailReferrersFromPage, "referrers_requests": pages, "evaluated": v.seen, "error": fmt.Sprint(verr)}
+		sig := func(kind string) map[string]string {
+			return map[string]string{"kind": kind, "repo": "registry-client", "paged": fmt.Sprint(s.page)}
+		}
+		if (verr == nil) != wantOK {
+			r.Violation(sig("decision"), fmt.Sprintf("listing %s in pages of %d, limit %d (pages after the one with the first good signature answer 500): success=%v, the statement says %v (err=%v)", s.listing, s.page, s.n, verr == nil, wantOK, verr), wit)
+			return
+		}
+		if wantOK {
+			r.Event("success-over-a-paged-registry")
+			if len(outs) != 1 || outs[0] == nil || len(outs[0].RawSignature) < 2 || int(outs[0].RawSignature[1]) != g {
+				r.Violation(sig("outcome"), fmt.Sprintf("listing %s: the outcome returned is not the one of the first good signature #%d", s.listing, g+1), wit)
+			}
+			if len(v.seen) != g+1 {
+				r.Violation(sig("trace-verify-after-first-good"), fmt.Sprintf("listing %s: %d signatures evaluated, the first good one is #%d", s.listing, len(v.seen), g+1), wit)
+			}
+		} else if len(v.seen) > s.n {
+			r.Violation(sig("trace-more-than-limit"), fmt.Sprintf("listing %s: %d evaluated with limit %d", s.listing, len(v.seen), s.n), wit)
+		}
+	}, r.PanicViolation("notation.Verify over the registry client"))
 }
